@@ -4,7 +4,8 @@
    two repairs made for this property), composed with IngressModel and RibModel. *)
 From stdpp Require Import gmap.
 From Coq Require Import NArith.
-From RV Require Import Ingress.IngressModel Ingress.IngressProofs Rib.RibModel Bmp.BmpModel Mrt.MrtModel Mrt.MrtProofs.
+From RV Require Import Ingress.IngressModel Ingress.IngressProofs Rib.RibModel Bmp.BmpModel Pipe.PipeRaw Mrt.MrtModel Mrt.MrtProofs Mrt.MrtRaw Mrt.MrtRawProofs.
+From RV Require Bgp.BgpModel.
 Local Open Scope N_scope.
 
 (* A dump file (peer index table, then non-empty IPv4/IPv6 unicast RIB records
@@ -172,6 +173,77 @@ Theorem C16_mixed_file_refuted :
   rib_entries (import [mixed_file]) 0 6 = [].
 Proof. exact mixed_file_witness. Qed.
 Print Assumptions C16_mixed_file_refuted.
+
+(* All or nothing, on the octets of the BGP message inside a BGP4MP record (read by C04's independent decoder,
+   BgpModel.decode in the code's mode): an UPDATE that cannot be taken apart contributes NO event - nothing leaves
+   the gate, nothing is looked up or registered; one that can leaves as ONE Bulk that holds every route event of
+   the UPDATE exactly as often as the UPDATE has it (withdrawals first), all under the one id that from then on
+   answers for the peer. Never the half that still parses. *)
+Theorem C16_update_all_or_nothing : forall parent r p bytes,
+  Below r -> PeerUnique r ->
+  match BgpModel.decode BgpModel.Code bytes with
+  | None => msg_step parent r (raw_rec p bytes) = (r, [])
+  | Some u =>
+      exists id r', msg_step parent r (raw_rec p bytes) = (r', [UBulk (bulk_of_events id (BgpModel.events u))]) /\
+        bulk_of_events id (BgpModel.events u) ≡ₚ map (pay_of_ev id) (BgpModel.events u) /\
+        answers r' (mrt_query parent p) id /\
+        (forall x, x ∈ bulk_of_events id (BgpModel.events u) -> k_mui (p_key x) = id)
+  end.
+Proof. exact raw_all_or_nothing. Qed.
+Print Assumptions C16_update_all_or_nothing.
+
+(* ... and it is local: in an update file the record of such an UPDATE is as if it were not there - the records
+   behind it are processed from the same register, whatever stands in front of it stays. *)
+Theorem C16_bad_update_local : forall parent r name rc recs1 p recs2,
+  update_file (FGood name (rc :: recs1 ++ recs2)) = true ->
+  process_file parent r (FGood name (rc :: recs1 ++ RMsg p BBad :: recs2)) =
+  process_file parent r (FGood name (rc :: recs1 ++ recs2)).
+Proof. exact bad_update_file. Qed.
+Print Assumptions C16_bad_update_local.
+
+(* For any queue around the file: update stream, RIB behind the gate and the property's reading are those of the
+   queue without the record ("an UPDATE that fails to parse changes nothing at all", C01). *)
+Theorem C16_bad_update_changes_nothing : forall bytes fs1 name rc recs1 p recs2 fs2,
+  BgpModel.decode BgpModel.Code bytes = None ->
+  update_file (FGood name (rc :: recs1 ++ recs2)) = true ->
+  queue_run unit_start.1 unit_start.2 (fs1 ++ FGood name (rc :: recs1 ++ raw_rec p bytes :: recs2) :: fs2) =
+    queue_run unit_start.1 unit_start.2 (fs1 ++ FGood name (rc :: recs1 ++ recs2) :: fs2) /\
+  import (fs1 ++ FGood name (rc :: recs1 ++ raw_rec p bytes :: recs2) :: fs2) =
+    import (fs1 ++ FGood name (rc :: recs1 ++ recs2) :: fs2) /\
+  i_import (fs1 ++ FGood name (rc :: recs1 ++ raw_rec p bytes :: recs2) :: fs2) =
+    i_import (fs1 ++ FGood name (rc :: recs1 ++ recs2) :: fs2).
+Proof. exact raw_undecodable_changes_nothing. Qed.
+Print Assumptions C16_bad_update_changes_nothing.
+
+(* The defect that was repaired (process_file: `process_message(..).await?`): with the error of explode_* handed
+   on, the messages part ended at the first UPDATE that cannot be taken apart - what stood in front of it was
+   applied, everything behind it was lost (witness: the announcement behind such an UPDATE; the property's
+   reading and the repaired walk have it). *)
+Theorem C16_old_walk_lost_rest_of_file :
+  (forall parent recs1 r p recs2, forallb (fun rc => negb (rec_bad rc)) recs1 = true ->
+     msgs_walk_old parent r (recs1 ++ RMsg p BBad :: recs2) = (msgs_walk parent r recs1, SStop)) /\
+  (msgs_walk_old unit_start.1 unit_start.2 bad_then_good).1.2 = [] /\
+  (msgs_walk unit_start.1 unit_start.2 bad_then_good).2 = [UBulk [MkPay (0, 6, 2) true 7]] /\
+  i_import [FGood 0 bad_then_good] !! (0, 6, pA) = Some (true, 7).
+Proof. exact old_walk_lost_rest. Qed.
+Print Assumptions C16_old_walk_lost_rest_of_file.
+
+(* non-vacuity for the octet level: two UPDATEs that are malformed in exactly one half (a 200-bit NLRI behind a good
+   one inside MP_UNREACH_NLRI next to a conventional announcement; the same inside MP_REACH_NLRI next to a
+   conventional withdrawal) do not decode; between two good UPDATEs (withdraw 10.9.9.0/24, announce 10.9.8.0/24)
+   they leave no trace in the update stream, the RIB or the property's reading *)
+Example C16_half_malformed_example :
+  BgpModel.decode BgpModel.Code raw_half_unreach = None /\
+  BgpModel.decode BgpModel.Code raw_half_reach = None /\
+  (exists a, raw_upd raw_good = Some (UGen None true 0 [(0, pfx_10_9_8)] a [(0, pfx_10_9_9)]) /\
+     import_updates [half_file] =
+       [UBulk [MkPay (0, pfx_10_9_9, 2) false 0; MkPay (0, pfx_10_9_8, 2) true a];
+        UBulk [MkPay (0, pfx_10_9_9, 2) false 0; MkPay (0, pfx_10_9_8, 2) true a]] /\
+     rib_entries (import [half_file]) 0 pfx_10_9_8 = [(2, true, a)] /\
+     i_entries (i_import [half_file]) 0 pfx_10_9_8 = [(pA, true, a)]) /\
+  rib_entries (import [half_file]) 0 pfx_10_9_9 = [] /\
+  i_entries (i_import [half_file]) 0 pfx_10_9_9 = [].
+Proof. exact half_example. Qed.
 
 (* non-vacuity: a dump of two peers (v4 and v6 entries), then an update file
    with an AS-path change, a withdrawal and a state change; ids, updates, RIB *)
